@@ -121,6 +121,114 @@ theorem connect_accepted_iff (s : St) (pdu : List UInt8) (r : Nat) :
         refine ⟨⟨⟨hbase.mpr ha, hi⟩, hd⟩, ?_⟩
         by_cases ha' : s.dAddr % 2 = 1 <;> by_cases hb : header pdu &&& 0x40 = 0 <;> simp_all
 
+/-! ### `change_advertising<>()`: the decision is about the PDU on air, not about the requested type
+
+  `selected_` names the advertising type whose PDU was handed to the radio (`fill_advertising_data(
+  selected_ )` in `handle_start_advertising` / `handle_adv_timeout`; the harnesses print the type of the
+  PDU actually handed to the radio and compare it with `types[selected]`).  `change_advertising< T >()`
+  only records `proposal_`; it takes effect with the next PDU.  `TypePermits` above is about `selected`. -/
+
+/-- src: advertiser::change_advertising< Type >: only `proposal_` is written -/
+theorem change_frame (s : St) (t : Nat) : ∃ p, (step s (.change t)).1 = { s with proposal := p } := by
+  simp only [step]
+  split
+  · split
+    · split
+      · exact ⟨_, rfl⟩
+      · exact ⟨s.proposal, rfl⟩
+    · exact ⟨s.proposal, rfl⟩
+  · exact ⟨s.proposal, rfl⟩
+
+theorem changes_frame (s : St) (ts : List Nat) :
+    ∃ p, finalState s (ts.map Op.change) = { s with proposal := p } := by
+  induction ts generalizing s with
+  | nil => exact ⟨s.proposal, rfl⟩
+  | cons t ts ih =>
+    obtain ⟨p, hp⟩ := change_frame s t
+    simp only [List.map_cons, finalState, hp]
+    obtain ⟨q, hq⟩ := ih { s with proposal := p }
+    exact ⟨q, hq⟩
+
+/-- the steps that hand a new advertising PDU to the radio (or try to) -/
+def reschedules : Op → Bool
+  | .llstart => true
+  | .timeout => true
+  | .start => true
+  | .startn _ => true
+  | .direct _ => true
+  | .recv _ => true
+  | _ => false
+
+/-- `selected_` moves only in steps that hand a PDU to the radio: no application call (in particular no
+    `change_advertising`, filter or white list call) changes the type the accept decision is based on -/
+theorem selected_moves_only_when_scheduling (s : St) (op : Op) (h : reschedules op = false) :
+    (step s op).1.selected = s.selected := by
+  cases op with
+  | add ch =>
+    simp only [step]; split
+    · split
+      · rename_i s' hs
+        simp only [addChannel, Option.map_eq_some_iff] at hs
+        obtain ⟨f, _, hf⟩ := hs; subst hf; rfl
+      · rfl
+    · rfl
+  | remove ch =>
+    simp only [step]; split
+    · split
+      · rename_i s' hs
+        unfold removeChannel at hs
+        simp only at hs
+        split at hs
+        · simp only [Option.map_eq_some_iff] at hs
+          obtain ⟨f, _, hf⟩ := hs; subst hf; rfl
+        · simp only [Option.some.injEq] at hs; subst hs; rfl
+      · rfl
+    · rfl
+  | interval ms => simp only [step]; split <;> (try unfold setIntervalMs) <;> (try split) <;> rfl
+  | stop => simp only [step]; split <;> rfl
+  | llstop => simp only [step, endEvents]; split <;> rfl
+  | dirty => rfl
+  | change t => obtain ⟨p, hp⟩ := change_frame s t; rw [hp]
+  | localAddr a => rfl
+  | filter b => rfl
+  | wladd a => rfl
+  | wlremove a => rfl
+  | scanfilter b => rfl
+  | scanreq pdu => simp only [step]; split <;> rfl
+  | llstart => simp [reschedules] at h
+  | timeout => simp [reschedules] at h
+  | start => simp [reschedules] at h
+  | startn n => simp [reschedules] at h
+  | direct a => simp [reschedules] at h
+  | recv pdu => simp [reschedules] at h
+
+/-- **C25, connect half under `change_advertising`.**  `s`: any state (in particular the state in which
+    the advertising PDU now on air was handed to the radio); after *any* sequence of
+    `change_advertising<>()` calls — all type pairs, any number — `handle_adv_receive` enters a connection
+    iff the request is proper for the advertising type of `s` (`s.selected`, the PDU on air): a switch to
+    connectable undirected advertising that has not yet reached the radio does not make the device accept
+    a CONNECT_IND in response to an ADV_SCAN_IND / ADV_NONCONN_IND PDU or, on an ADV_DIRECT_IND PDU, from a
+    device that is not the target — and a pending switch away from a connectable type does not make it
+    refuse one. -/
+theorem connect_accepted_on_air (s : St) (ts : List Nat) (pdu : List UInt8) (r : Nat) :
+    Accepts (finalState s (ts.map Op.change)) pdu r ↔
+      (AddressedConnect s pdu ∧ TypePermits s pdu ∧ r = initiator pdu
+        ∧ (s.wl.connFilter = false ∨ r ∈ s.wl.entries)) := by
+  obtain ⟨p, hp⟩ := changes_frame s ts
+  rw [hp]
+  exact connect_accepted_iff { s with proposal := p } pdu r
+
+/-- non-vacuity / the input class of the missed mutation: four-type advertiser, scannable advertising is
+    on air (PDU on 37), the application switches to connectable undirected: a proper CONNECT_IND that
+    answers the ADV_SCAN_IND is not accepted; after the next PDU (now ADV_IND) the same request is -/
+example :
+    let c : Cfg := { varMap := true, varInterval := true, fixedMs := 100, autoStart := false,
+                     types := [.undirected, .directed, .scannable, .nonconn] }
+    let pdu : List UInt8 := [0x45, 34, 0xaa, 0xaa, 0xaa, 0xaa, 0xaa, 0xaa, 0x66, 0x55, 0x44, 0x33, 0x22, 0x11] ++ List.replicate 22 0
+    ((run (init c (2 * 0x112233445566)) [.change 2, .llstart, .start, .change 0, .recv pdu, .recv pdu]).map (·.2)) =
+      [.ok, .sched none, .sched (some (37, 0)), .ok, .recv none (some (38, 0)), .recv (some (2 * 0xaaaaaaaaaaaa + 1)) none] := by
+  decide
+
 /-- non-vacuity of `connect_accepted_iff`: a valid CONNECT_IND for the public address
     11:22:33:44:55:66 from the random initiator aa:…, default advertiser, filter off -/
 example :
